@@ -98,9 +98,19 @@ void h_C16_seq(void)
 		unsigned bad = 0, w = 0;
 		for (unsigned i = 0; i < C16_N; i++)
 			if (i < mn) { if (m[i]->error) bad++; else m[w++] = m[i]; }
+		/* a lookup BEFORE the removal (it may hit an errored item) and the same lookup AFTER it */
+		char want = idx % 2 == 0 ? 'a' : 'b';
+		char key[2] = { want, 0 };
+		(void)jwks_find_bykid(set, key);
 		int r = jwks_item_free_bad(set);
 		__CPROVER_assert(r == (int)bad, "C16: jwks_item_free_bad returns the number of errored items it removed");
 		mn = w;
+		{
+			jwk_item_t *r2 = jwks_find_bykid(set, key), *exp = NULL;
+			for (unsigned i = C16_N; i-- > 0;)
+				if (i < mn && kid_is(m[i], want)) exp = m[i];
+			__CPROVER_assert(r2 == exp, "C16: jwks_find_bykid after jwks_item_free_bad finds the first remaining item with that kid");
+		}
 		check_model(set);
 		__CPROVER_assert(jwks_item_free_bad(set) == 0, "C16: a repeated jwks_item_free_bad removes nothing");
 		check_model(set);
